@@ -16,6 +16,7 @@ Inputs ==
                             ObjV(<< << StrV(Ascii("a")), ArrV(<< IntV(0), Null >>) >> >>), IntV(0)}
     [] Family = "streams" -> {IntV(0), ArrV(<< IntV(1), Null, IntV(2) >>)}
     [] Family = "rec" -> {Null}
+    [] Family = "lazyp" -> {ArrV(<< ArrV(<< IntV(0) >>), IntV(1) >>)}
     [] Family = "pathidx" -> {ArrV(<< ArrV(<< IntV(0), IntV(1), IntV(2) >>), IntV(1), IntV(2), IntV(3) >>),
                               ObjV(<< << StrV(Ascii("a")), ArrV(<< IntV(0), IntV(1) >>) >> >>)}
 
